@@ -4,6 +4,7 @@ import (
 	"encoding/json"
 	"fmt"
 	"os"
+	"runtime/debug"
 	"runtime/pprof"
 	"strconv"
 	"strings"
@@ -15,6 +16,7 @@ func main() {
 		fmt.Fprintln(os.Stderr, "usage: vcheck <Cxx> [--tier quick|thorough] | vcheck run <harness> <pkg> <tags> [k=v ...]")
 		os.Exit(2)
 	}
+	debug.SetGCPercent(400) // the interpreter allocates short-lived terms at a high rate; trade memory for time
 	defer os.RemoveAll(workDir())
 	if pf := os.Getenv("VERIF_CPUPROFILE"); pf != "" {
 		f, _ := os.Create(pf)
